@@ -201,6 +201,97 @@ func (c *simCtx) shrinkHistory(spec *RunSpec, F map[string]*RefOutcome, classes 
 	return &out, runs
 }
 
+// shrinkPrograms: after the operation list is minimal, ddmin over the source lines of every program
+// the history still uses. Each candidate program needs its own fresh-process references (two
+// runs, which must agree) and one run of the history; all candidates of a round run in parallel.
+func (c *simCtx) shrinkPrograms(spec *RunSpec, F map[string]*RefOutcome, refSpecs map[string][]*RunSpec, class string, maxRuns int) (*RunSpec, int) {
+	cur := *spec
+	cur.Script.Sources = append([]string(nil), spec.Script.Sources...)
+	cur.ProgKeys = append([]string(nil), spec.ProgKeys...)
+	runs := 0
+	type candRes struct {
+		ok    bool
+		key   string
+		ref   *RefOutcome
+		specs []*RunSpec
+		src   string
+	}
+	used := usedSources(&cur.Script)
+	for li := range cur.Script.Sources {
+		if !used[li] {
+			continue
+		}
+		raw, _ := base64.StdEncoding.DecodeString(cur.Script.Sources[li])
+		lines := strings.Split(string(raw), "\n")
+		n := 2
+		for len(lines) >= 2 && runs < maxRuns {
+			chunk := (len(lines) + n - 1) / n
+			var cands [][]string
+			for st := 0; st < len(lines); st += chunk {
+				e := st + chunk
+				if e > len(lines) {
+					e = len(lines)
+				}
+				cands = append(cands, append(append([]string(nil), lines[:st]...), lines[e:]...))
+			}
+			out := make([]candRes, len(cands))
+			parallelDo(len(cands), 16, func(i int) {
+				src := []byte(strings.Join(cands[i], "\n"))
+				pp := &PoolProg{Key: shaHex(src)[:16], Src: src}
+				s1 := refSpec(cur.Variant, pp, deriveSeed(cur.Seed, 901, uint64(i)*2+uint64(runs)*131))
+				s2 := refSpec(cur.Variant, pp, deriveSeed(cur.Seed, 902, uint64(i)*2+1+uint64(runs)*131))
+				o1, _ := refOutcomeOf(c.runSpec(s1))
+				o2, _ := refOutcomeOf(c.runSpec(s2))
+				o1.ExitCode, o2.ExitCode = 0, 0
+				if o1 != o2 || !o1.Admitted() {
+					return
+				}
+				cand := cur
+				cand.Script.Sources = append([]string(nil), cur.Script.Sources...)
+				cand.ProgKeys = append([]string(nil), cur.ProgKeys...)
+				cand.Script.Sources[li] = base64.StdEncoding.EncodeToString(src)
+				cand.ProgKeys[li] = pp.Key
+				F2 := map[string]*RefOutcome{}
+				for k, v := range F {
+					F2[k] = v
+				}
+				F2[pp.Key] = &o1
+				res := c.runSpec(&cand)
+				v, _, err := evalHistorySafe(&cand, res, F2, map[string]string{})
+				if err == nil && v != nil && v.Class == class {
+					out[i] = candRes{ok: true, key: pp.Key, ref: &o1, specs: []*RunSpec{s1, s2}, src: cand.Script.Sources[li]}
+				}
+			})
+			runs += 3 * len(cands)
+			reduced := false
+			for i := range cands {
+				if out[i].ok {
+					lines = cands[i]
+					cur.Script.Sources[li] = out[i].src
+					cur.ProgKeys[li] = out[i].key
+					F[out[i].key] = out[i].ref
+					refSpecs[out[i].key] = out[i].specs
+					reduced = true
+					break
+				}
+			}
+			if reduced {
+				if n > 2 {
+					n--
+				}
+			} else if chunk > 1 {
+				n *= 2
+				if n > len(lines) {
+					n = len(lines)
+				}
+			} else {
+				break
+			}
+		}
+	}
+	return &cur, runs
+}
+
 // ---------- the check ----------
 
 type c10Report struct {
@@ -461,6 +552,42 @@ func runC10(tierName string) int {
 				for _, pp := range pool {
 					if pp.Key == k {
 						refSpecs[k] = pp.RefSpecs[min.Variant]
+					}
+				}
+			}
+		}
+		if exact && note == "" { // minimise the programs too (statement lines), then confirm once more
+			linesBefore := 0
+			for li, s := range min.Script.Sources {
+				if used[li] {
+					b, _ := base64.StdEncoding.DecodeString(s)
+					linesBefore += bytes.Count(b, []byte("\n")) + 1
+				}
+			}
+			min2, pr := c.shrinkPrograms(min, F, refSpecs, v2.Class, 900)
+			res2 := c.runSpec(min2)
+			v3, _, err3 := evalHistorySafe(min2, res2, F, classes)
+			if err3 == nil && v3 != nil && v3.Class == v2.Class {
+				linesAfter := 0
+				for li, s := range min2.Script.Sources {
+					if used[li] {
+						b, _ := base64.StdEncoding.DecodeString(s)
+						linesAfter += bytes.Count(b, []byte("\n")) + 1
+					}
+				}
+				min, res, v2 = min2, res2, v3
+				runs += pr
+				note = fmt.Sprintf("programs minimised from %d to %d source lines", linesBefore, linesAfter)
+				// keep only the reference specs of programs still used
+				keep := map[string]bool{}
+				for li, k := range min.ProgKeys {
+					if used[li] {
+						keep[k] = true
+					}
+				}
+				for k := range refSpecs {
+					if !keep[k] {
+						delete(refSpecs, k)
 					}
 				}
 			}
